@@ -319,7 +319,11 @@ class Segment(NamedTuple):
 
         _Segment = Segment
         for segment in iter_segments:
-            if last_segment.style == segment.style and not segment.is_control:
+            if (
+                last_segment.style == segment.style
+                and not segment.is_control
+                and not last_segment.is_control
+            ):
                 last_segment = _Segment(
                     last_segment.text + segment.text, last_segment.style
                 )
